@@ -45,6 +45,7 @@ func init() {
 		"tl.wait.seqno":       exWaitSeqno,
 		"tl.wait.block":       exWaitBlock,
 		"go.tl.tagtable":      goTagTable,
+		"go.tl.reflectsum":    goReflectSum,
 		"tl.hw.accountid":     exHwAccountID,
 		"tl.hw.blockidext":    exHwBlockIDExt,
 		"tl.hw.accountid.dec": exHwAccountIDDec,
@@ -129,6 +130,53 @@ func exWaitBlock(a []string) string {
 		}
 		return "res " + (&tlmini.Val{K: tlmini.VSum, Ctor: c.Ctor, Items: vs}).String()
 	})
+}
+
+// reflAdnlMessage: adnl.Message written for package tl's REFLECTION codec (tl.SumType + `tlSumType` struct tags, the
+// mechanism the generated request wrappers use for marshalling); the generated AdnlMessage has its own methods.
+type reflAdnlMessage struct {
+	tl.SumType
+	AdnlMessageQuery struct {
+		QueryId tl.Int256
+		Query   []byte
+	} `tlSumType:"b48bf97a"`
+	AdnlMessageAnswer struct {
+		QueryId tl.Int256
+		Answer  []byte
+	} `tlSumType:"0fac8416"`
+}
+
+// goReflectSum <0|1> <query id hex32> <payload hex>: the reflection codec of package tl on a sum type agrees, in both
+// directions, with the generated codec of the same type: same bytes, and each decodes the other's bytes to the value.
+func goReflectSum(a []string) string {
+	var id tl.Int256
+	copy(id[:], h.MustUnHex(a[1]))
+	data := unDash(a[2])
+	var r reflAdnlMessage
+	var gen liteclient.AdnlMessage
+	if a[0] == "0" {
+		r.SumType, gen.SumType = "AdnlMessageQuery", "AdnlMessageQuery"
+		r.AdnlMessageQuery.QueryId, r.AdnlMessageQuery.Query = id, data
+		gen.AdnlMessageQuery.QueryId, gen.AdnlMessageQuery.Query = id, data
+	} else {
+		r.SumType, gen.SumType = "AdnlMessageAnswer", "AdnlMessageAnswer"
+		r.AdnlMessageAnswer.QueryId, r.AdnlMessageAnswer.Answer = id, data
+		gen.AdnlMessageAnswer.QueryId, gen.AdnlMessageAnswer.Answer = id, data
+	}
+	b1, err1 := tl.Marshal(r)
+	b2, err2 := tl.Marshal(gen)
+	if err1 != nil || err2 != nil || !bytes.Equal(b1, b2) {
+		return failf("reflectsum", "reflection %x (%v) vs generated %x (%v)", b1, err1, b2, err2)
+	}
+	var back reflAdnlMessage
+	if err := tl.Unmarshal(bytes.NewReader(b2), &back); err != nil {
+		return failf("reflectsum", "reflection decoder on %x: %v", b2, err)
+	}
+	if back.SumType != r.SumType || back.AdnlMessageQuery.QueryId != r.AdnlMessageQuery.QueryId || !bytes.Equal(back.AdnlMessageQuery.Query, r.AdnlMessageQuery.Query) ||
+		back.AdnlMessageAnswer.QueryId != r.AdnlMessageAnswer.QueryId || !bytes.Equal(back.AdnlMessageAnswer.Answer, r.AdnlMessageAnswer.Answer) {
+		return failf("reflectsum", "reflection decoder on %x gives another value (SumType %q)", b2, back.SumType)
+	}
+	return "ok"
 }
 
 // goTagTable: liteapi/models.go is a table `<CamelCase(constructor)>Tag = <id, bytes reversed>`; every constant whose
@@ -647,6 +695,9 @@ func genC10(g *h.G) {
 	g.Emit("prim.crc32", textHex("liteServer.query data:bytes = Object"))
 	g.Emit("go.regen.liteclient")
 	g.Emit("go.tl.tagtable")
+	for i := 0; i < g.Scale(12, 200); i++ {
+		g.Emit("go.tl.reflectsum", fmt.Sprint(i%2), h.Hex(g.Bytes(32)), hexDash(g.Bytes([]int{0, 1, 3, 4, 253, 254, 300}[i%7])))
+	}
 	genWait(g, s)
 	g.Emit("go.regen.integers")
 	g.Emit("tl.schema", textHex(string(src)))
